@@ -95,11 +95,17 @@ def gen_system(rng, tier):
 
     contains = {}
     idguard = {}
+    idxform = {}
     for i in range(1, n + 1):
         wrapped = style[i] == "class"
         contains[i] = gspec(wrapped, p_write=0.2, p_err=0.08, p_if=0.1)
         if rng.random() < 0.15:
             idguard[i] = gspec(False)   # explicit relationship on the IdentityRelation (no multimethod converter)
+        if rng.random() < 0.2:
+            # a user-defined transformer on an identity relation (the engine applies it like any other)
+            idxform[i] = {"map": [[u, rng.choice(U)] for u in U if rng.random() < 0.6], "err": [], "wrapped": True}
+            if rng.random() < 0.3:
+                idxform[i]["write"] = rng.choice(keys)
     k = rng.randint(0, min(8, n * (n - 1)))
     inf = []
     seen = set((parent[i], i) for i in parent)
@@ -121,7 +127,7 @@ def gen_system(rng, tier):
             x["write"] = rng.choice(keys)
         inf.append({"src": a, "dst": b, "guard": g, "xform": x, "reg": reg})
     return {"n": n, "m": m, "kind": kind, "names": names, "parent": parent, "style": style,
-            "contains": contains, "idguard": idguard, "inf": inf, "cyclic": cyclic}
+            "contains": contains, "idguard": idguard, "idxform": idxform, "inf": inf, "cyclic": cyclic}
 
 
 def mk_guard(tag, src, dst, spec):
@@ -179,14 +185,18 @@ def build_real(sysd):
         cont = mk_guard("g", pnm, nm, cspec)   # as identity guard it is logged under the identity edge
         # identity relation
         idg = sysd["idguard"].get(i)
+        idx = sysd.get("idxform", {}).get(i)
         infs = [e for e in sysd["inf"] if e["dst"] == i]
 
-        def make_relations(i=i, nm=nm, pnm=pnm, idg=idg, infs=infs):
+        def make_relations(i=i, nm=nm, pnm=pnm, idg=idg, infs=infs, idx=idx):
             rels = []
+            kw = {}
+            if idx is not None:
+                kw["transformer"] = mk_xform(pnm, nm, idx, kind)
             if idg is not None:
-                rels.append(IdentityRelation(types[sysd["parent"][i]], relationship=mk_guard("g", pnm, nm, idg)))
+                rels.append(IdentityRelation(types[sysd["parent"][i]], relationship=mk_guard("g", pnm, nm, idg), **kw))
             else:
-                rels.append(IdentityRelation(types[sysd["parent"][i]]))
+                rels.append(IdentityRelation(types[sysd["parent"][i]], **kw))
             for e in infs:
                 snm = names[e["src"]]
                 if e["reg"] == "direct":
@@ -216,8 +226,12 @@ def build_real(sysd):
             # create_type evaluates `identity`/`inference` lazily in get_relations, but needs the objects now
             if idg is not None:
                 identity = {"related_type": types[sysd["parent"][i]], "relationship": mk_guard("g", pnm, nm, idg)}
+            elif idx is not None:
+                identity = {"related_type": types[sysd["parent"][i]]}
             else:
                 identity = types[sysd["parent"][i]]
+            if idx is not None:
+                identity["transformer"] = mk_xform(pnm, nm, idx, kind)
             inference = []
             ok_decl = all(e["src"] in types for e in infs)
             if not ok_decl:
@@ -255,7 +269,8 @@ def build_real(sysd):
         g = dict(idg) if idg is not None else dict(sysd["contains"][i])
         if idg is None and sysd["style"][i] == "decl":
             g["wrapped"] = False
-        relspec[(pnm, nm)] = {"src": pnm, "dst": nm, "inf": False, "guard": g, "xform": {"nolog": True}}
+        relspec[(pnm, nm)] = {"src": pnm, "dst": nm, "inf": False, "guard": g,
+                              "xform": dict(sysd.get("idxform", {}).get(i)) if sysd.get("idxform", {}).get(i) is not None else {"nolog": True}}
     for e in sysd["inf"]:
         snm, nm = names[e["src"]], names[e["dst"]]
         g = dict(e["guard"])
